@@ -19,7 +19,8 @@ struct Case {
     /// "enumerate" | "sequence" | "unusable"
     kind: String,
     /// "first" | "after_edit" | "revert" | "forced" (generated and current; the
-    /// faulty run is a forced regeneration)
+    /// faulty run is a forced regeneration) | "lost_file" (generated and current, then one
+    /// generated file was deleted: the faulty run is the one that restores it)
     prestate: String,
     model: Model,
     /// the edited model (after_edit / revert)
@@ -308,11 +309,12 @@ impl Check for C17 {
             2 => "sequence",
             _ => "unusable",
         };
-        let prestate = match (i / 3) % 4 {
+        let prestate = match (i / 3) % 5 {
             0 => "first",
             1 => "after_edit",
             2 => "revert",
-            _ => "forced",
+            3 => "forced",
+            _ => "lost_file",
         };
         let mut gp = GenParams::swarm(&mut r.split("params"));
         gp.n_files = gp.n_files.min(3);
@@ -363,11 +365,32 @@ impl Check for C17 {
                 });
             }
         }
+        // a directory that lost its write permission: no entry can be added or removed, files
+        // that exist can still be rewritten; the edit (first event -> events.ts) needs a new entry
+        let mut model = model;
+        let mut model_b = model_b;
+        let mut prestate = prestate.to_string();
+        let mut edit_desc = edit_desc;
+        if kind == "sequence" && i % 3 == 0 && !model.events().is_empty() {
+            let with_events = model.clone();
+            for f in &mut model.files {
+                for it in &mut f.items {
+                    if let crate::model::Item::Cmd(c) = it {
+                        c.emits.clear();
+                    }
+                }
+            }
+            model_b = Some(with_events);
+            edit_desc = "the first events are added (events.ts has to be created)".into();
+            prestate = if (i / 3) % 2 == 0 { "revert".into() } else { "after_edit".into() };
+            seq = vec![vec![FaultSpec { at: FaultAt::DirReadOnly { dir_suffix: format!("/{}", setup.out) }, kind: FaultKind::Err(libc::EACCES) }]];
+            recovery_fault = None;
+        }
         let obstacles = ["out_is_file", "parent_is_file", "dangling_symlink", "dir_squats_types", "dir_squats_cache", "dir_squats_index", "name_too_long", "dir_squats_commands"];
         let obstacle = obstacles[((i / 32) % obstacles.len() as u64) as usize].to_string();
         serde_json::to_value(Case {
             kind: kind.into(),
-            prestate: prestate.into(),
+            prestate,
             model,
             model_b,
             edit_desc,
@@ -409,7 +432,10 @@ impl Check for C17 {
                 w.destroy();
                 return co;
             }
-            if c.prestate != "forced" {
+            if c.prestate == "lost_file" {
+                let victim = ["types.ts", "commands.ts", "index.ts"][c.p_prep.hash_keys[0] as usize % 3];
+                let _ = std::fs::remove_file(out.join(victim));
+            } else if c.prestate != "forced" {
                 match &c.model_b {
                     Some(m) => w.write_sources(m),
                     None => {
